@@ -43,3 +43,29 @@ SPECS['C14'] = dict(
     assumptions=COMMON_ASSUME[:1] + COMMON_ASSUME[2:],
     level_text='Exploration by a metamorphic relation (no reference model needed): complete over the enumerated x and the listed y; sequences are sampled.',
     level_note='x ranges over enumerated well-formed items only; y over single bytes, small items and a few garbage strings, not all strings.')
+
+def stream_jobs(tier, seed):
+    return [Job('drv_stream', 'asan', [], shards=NCPU, timeout=5400)]
+
+STREAM_ASSUME = [COMMON_ASSUME[0], 'the reference tokeniser (src/ref/refcbor.hpp read_head/tokenise, written from RFC 8949 sect. 3 and the profile) is correct', COMMON_ASSUME[2]]
+
+SPECS['C08'] = dict(
+    jobs=stream_jobs, level='exploration', technique='exhaustive/boundary enumeration of heads x buffer lengths against a reference tokeniser, with a recording callback table',
+    rule='HEAD campaign: every initial byte (256) x every buffer length 0..head length+1 x argument values (all one- and two-byte arguments exhaustively; boundary and seeded values for four/eight-byte ones incl. declared lengths up to 2^64-1); definite strings also with payload one short/exact/one extra. Oracle per call: FINISHED with exactly one callback (right slot, arguments, payload pointer = buffer+head, inside the buffer) and read = head(+payload) length; or NEDATA with no callback, read 0, n < required <= pending length (128-bit); or ERROR with no callback, read 0 for reserved/unsupported bytes; zero allocator calls; identical result when repeated and after unrelated calls; FINISHED independent of bytes beyond read (exact-size prefix, and flipped suffix). Non-trivial = buffer of >=1 byte whose head takes an argument or payload; distinct by buffer bytes.',
+    assumptions=STREAM_ASSUME,
+    level_text='Exploration: exhaustive per initial byte for immediate, one- and two-byte arguments; boundary grid plus seeded values for wider arguments.',
+    level_note='Trusts the reference tokeniser; "allocates nothing" is observed through the installed allocator (libc bypass is the business of C13).')
+
+SPECS['C09'] = dict(
+    jobs=stream_jobs, level='exploration', technique='model-based testing of the buffering client loop: event sequence vs. independent tokenisation over generated (stream, fragmentation) pairs',
+    rule='FRAG campaign: streams = concatenations of 1..4 enumerated items, raw sequences of 1..6 random heads, and specials (huge declared lengths, reserved bytes, truncated tails); fragmentations = one-shot, every single cut point, byte-at-a-time, 8 seeded multi-cut lists per stream. The client of the property statement is simulated (each call on an exactly-sized copy of the buffered bytes). Oracle: events equal the reference tokenisation (slot, arguments, payload bytes, order); every wait has buffered < required <= what the pending item occupies; progress on FINISHED; final state consistent with the tokenisation (all delivered / ERROR at the reserved byte / waiting on the incomplete tail). Non-trivial = some cut strictly inside a head or payload; distinct by (stream, cuts).',
+    assumptions=STREAM_ASSUME,
+    level_text='Exploration: all single cuts and byte-wise delivery of each generated stream, sampled multi-cut fragmentations; streams are sampled.',
+    level_note='Trusts the reference tokeniser; the client loop is the one described in the property, implemented in the driver.')
+
+SPECS['C10'] = dict(
+    jobs=stream_jobs, level='exploration', technique='exhaustive small domains + boundary/seeded sweeps: encoder output vs. reference head, then round-trip through the streaming decoder',
+    rule='ENC campaign over every cbor_encode_* function: all 8- and 16-bit values, all ctrl values except 24..31 (no RFC encoding), bool/null/undef/break/indefinite starts, every half pattern; 32/64-bit and width-agnostic encoders on 0..70000, all 2^k-1/2^k/2^k+1, width boundaries and seeded values of random bit length; single/double exponent x boundary mantissas + seeded. Oracle: bytes == RFC 8949 head from the reference (NaN canonical), return == length, bytes beyond untouched, decoder fires the matching slot with identical value and consumes exactly the bytes written (unsupported simple values must give ERROR; string heads are decoded with and without payload). Non-trivial = head longer than one byte; distinct by (encoder, value).',
+    assumptions=STREAM_ASSUME,
+    level_text='Exploration: exhaustive for 8/16-bit domains, constants and all half patterns; boundary + seeded elsewhere.',
+    level_note='cbor_encode_half is judged only on NaN and half-representable floats (its documented domain for exactness; totality on other floats is C15).')
